@@ -13,6 +13,7 @@ no internal fault of the VM machinery.
 """
 import itertools
 import re
+import signal
 
 from .. import par, world
 from ..cli import Report
@@ -44,10 +45,39 @@ FAULT_PLACES = ('machine.py:run', 'machine.py:_jsr', 'machine.py:_return', 'mach
                 'call_stack.py:', 'loader.py:', 'eval_stack.py:', 'routine.py:')
 
 
+class _TooLong(BaseException):
+    pass
+
+
+def _alarm(signum, frame):
+    raise _TooLong()
+
+
+TIME_LIMIT_S = 10          # per text; a compile takes well under a millisecond
+_timeouts = [0]
+
+
 def judge(w, text, must_reject=False):
     """-> (outcome, kind, detail).  outcome: accept | reject | viol"""
+    if _timeouts[0] >= 3:
+        return 'reject', None, None          # this worker already reported texts that do not finish; do not spend hours
+    signal.signal(signal.SIGALRM, _alarm)
+    signal.setitimer(signal.ITIMER_REAL, TIME_LIMIT_S)
+    try:
+        try:
+            return _judge(w, text, must_reject)
+        finally:
+            signal.setitimer(signal.ITIMER_REAL, 0)
+    except _TooLong:
+        _timeouts[0] += 1
+        return 'viol', 'compiler-or-vm-does-not-finish', 'no result within %d s' % TIME_LIMIT_S
+
+
+def _judge(w, text, must_reject=False):
     try:
         job = ScriptJob.from_string(text)
+    except _TooLong:
+        raise
     except Exception as ex:
         return 'viol', 'compiler-raises:' + type(ex).__name__, repr(ex)
     prog = job.program
